@@ -4,10 +4,10 @@ package directinvoke
 
 import (
 	"bytes"
-	"math"
-	"net"
 	"context"
 	"io"
+	"math"
+	"net"
 	"net/http"
 	"time"
 
@@ -166,7 +166,9 @@ type verifFaultyReader struct {
 	read bool
 }
 
-func (r *verifFaultyReader) Read(p []byte) (int, error) { panic("not executed natively in symbolic mode") }
+func (r *verifFaultyReader) Read(p []byte) (int, error) {
+	panic("not executed natively in symbolic mode")
+}
 func (r *verifFaultyReader) VerifRead(n int64) ([]byte, error) {
 	if r.read {
 		return nil, nil
